@@ -447,7 +447,28 @@ class ReplayAfterLongSession(Job):
             sim.close_world()
 
 
+# ---- full stack: "encrypted ... for exactly that phase": the dilation control phases of a really dilating wormhole share the mailbox with the
+# application phases - with a dilating peer and with a peer created WITHOUT dilation (which must never see `dilate-N` plaintexts as messages)
+from harness import fullstack as FS  # noqa: E402
+
+FS_CONFIGS = {
+    "fs-mixed-old-peer-2msg-reorder": dict(app=False, nmsg=(2, 2), old_peer=True, reorder=True, stoppable=False),
+    "fs-both-dilating-2msg-reorder-late": dict(app=False, nmsg=(2, 2), reorder=True, dilate_when="late", stoppable=False),
+}
+
+
+class FPhases(FS.FExplore):
+    configs = FS_CONFIGS
+
+    def violations(self, sim, when):
+        return FS.app_message_violations(sim, when)
+
+
 def jobs(tier):
+    return _jobs(tier) + FS.make_jobs(FPhases, tier, 2, 3)
+
+
+def _jobs(tier):
     thorough = tier == "thorough"
     from harness.phase_dispatch import HoldBack
     J = [PhaseKeyBinding(), HoldBack()] + [ReplayAfterLongSession(n) for n in ((20, 70, 150, 300) if thorough else (20, 70, 150))]      # ("encrypted for exactly that phase": a dilate-N plaintext never reaches the application as message N)
